@@ -63,6 +63,9 @@ def history(draw):
         items = []
         if fill and draw(st.booleans()):
             items.append(fill.pop(0))
+        if draw(st.integers(0, 3)) == 0:
+            # experimental-design tags, which views of the manager may be asked to leave out
+            items.append(draw(st.sampled_from([f"Task/Tk{r}", f"Condition-variable/Cv{r}"])))
         nact = draw(st.integers(0, 2))
         for _ in range(nact):
             act = draw(st.sampled_from(["onset", "onset", "close", "duration", "duration"]))
@@ -192,6 +195,13 @@ def oracle(case):
     try:
         before = [str(o) if o is not None else None for o in objs]
         plain = tm.get_hed_objs(include_context=False)
+        stored = [str(h) for h in em.hed_strings]
+        view = HedTagManager(em, remove_types=["Condition-variable", "Task"])      # a filtered view for another consumer
+        vtext = " ".join(str(o) for o in view.get_hed_objs(include_context=False) if o is not None)
+        if "Task/Tk" in vtext or "Condition-variable/Cv" in vtext:
+            out.bad("removed-type-still-in-filtered-view", f"{vtext!r}\n{tsv}")
+        if [str(h) for h in em.hed_strings] != stored:
+            out.bad("filtered-view-changed-the-manager", f"{stored} -> {[str(h) for h in em.hed_strings]}\n{tsv}")
         objs_again = tm.get_hed_objs(include_context=True)
         em2 = EventManager(tab, sch, extra_defs=def_dict())
     except Exception as exc:  # noqa
